@@ -17,9 +17,10 @@ CONSTANTS
 VARIABLES
     l,          \* position in the trace
     bad,        \* property ids violated by the step that led here
-    conf        \* whether that step conforms to the specification
+    conf,       \* whether that step conforms to the specification
+    stopped     \* zero-height preparation has run in this history
 
-tvars == <<pvars, l, bad, conf>>
+tvars == <<pvars, l, bad, conf, stopped>>
 
 Trace == ndJsonDeserialize(TraceFile)
 
@@ -81,6 +82,8 @@ Conf ==
     LET e == ev' IN
     CASE e.name = "reset" -> TRUE
       [] e.name = "Obs" -> UNCHANGED svars
+      [] e.name = "Genesis" -> UNCHANGED svars
+      [] e.name = "PrepZeroHeight" -> e.ok /\ PrepZeroHeight
       [] e.name = "Define" ->
             IF e.ok THEN Define(e.signer, e.svc, e.dg) ELSE Rej(CanDefine(e.signer, e.svc))
       [] e.name = "Bind" ->
@@ -135,13 +138,108 @@ Conf ==
       [] OTHER -> FALSE
 
 -----------------------------------------------------------------------------
+(* C17 (and the listing clause of C15): what each query must return, as a function of *)
+(* the stored state.  An "Obs" event carries the answers of every gRPC method and     *)
+(* every legacy route (digests of the records returned) and truth tables (digests of  *)
+(* the stored records, from the raw store scan).                                      *)
+
+DgOf(tbl, Key(_), k) == LET hits == {x \in RangeOf(tbl) : Key(x) = k}
+                        IN IF hits = {} THEN "MISSING" ELSE (CHOOSE x \in hits : TRUE).dg
+BindKey(x) == <<x.svc, x.prov>>
+RidKey(x) == T4(x.rid)
+
+\* the truth tables list exactly the records of the abstract state
+TruthBound(o) ==
+    /\ {x.svc : x \in RangeOf(o.tdefs)} = DOMAIN defs
+    /\ {BindKey(x) : x \in RangeOf(o.tbind)} = DOMAIN bind
+    /\ {x.id : x \in RangeOf(o.tctx)} = DOMAIN ctx
+    /\ {RidKey(x) : x \in RangeOf(o.treq)} = {r \in DOMAIN req : r[1] \in DOMAIN ctx}
+    /\ {RidKey(x) : x \in RangeOf(o.tresp)} = DOMAIN resp
+
+\* a single answer
+One(x) == <<x>>
+
+\* the answer is a list of exactly the wanted digests, each once
+ExactlyList(got, want) == Len(got) = Cardinality(want) /\ RangeOf(got) = want
+
+WantOK(o, q) ==
+    LET a == q.arg
+        g == q.grpc
+    IN CASE q.q = "definition" ->
+              g = One(IF a.svc \in DOMAIN defs THEN DgOf(o.tdefs, LAMBDA x : x.svc, a.svc) ELSE "ERR")
+         [] q.q = "binding" ->
+              g = One(IF <<a.svc, a.prov>> \in DOMAIN bind THEN DgOf(o.tbind, BindKey, <<a.svc, a.prov>>) ELSE "ERR")
+         [] q.q = "bindings" ->
+              ExactlyList(g, {DgOf(o.tbind, BindKey, k) :
+                                k \in {k \in DOMAIN bind : k[1] = a.svc /\ (a.owner = "" \/ bind[k].owner = a.owner)}})
+         [] q.q = "withdraw_address" ->
+              g = One(IF a.owner \in DOMAIN waddr THEN waddr[a.owner] ELSE a.owner)
+         [] q.q = "fees" -> g = One(ToString(Get0(earned, a.prov)))
+         [] q.q = "context" ->
+              g = One(IF a.id \in DOMAIN ctx THEN DgOf(o.tctx, LAMBDA x : x.id, a.id) ELSE o.empty)
+         [] q.q = "request" ->
+              g = One(IF T4(a.rid) \in DOMAIN req /\ a.rid[1] \in DOMAIN ctx
+                      THEN DgOf(o.treq, RidKey, T4(a.rid)) ELSE o.empty)
+         [] q.q = "response" ->
+              g = One(IF T4(a.rid) \in DOMAIN resp THEN DgOf(o.tresp, RidKey, T4(a.rid)) ELSE o.empty)
+         [] q.q = "requests" ->
+              \* the pending requests of a binding
+              ExactlyList(g, {DgOf(o.treq, RidKey, x[4]) : x \in {x \in actBind : x[1] = a.svc /\ x[2] = a.prov}})
+         [] q.q = "requests_by_ctx" ->
+              ExactlyList(g, {DgOf(o.treq, RidKey, r) : r \in {r \in DOMAIN req : r[1] = a.id /\ r[2] = a.batch}})
+         [] q.q = "responses" ->
+              ExactlyList(g, {DgOf(o.tresp, RidKey, r) : r \in {r \in DOMAIN resp : r[1] = a.id /\ r[2] = a.batch}})
+         [] q.q = "params" -> g = One(o.tparams)
+         [] q.q = "schema" ->
+              g = One(IF a.name \in {x.svc : x \in RangeOf(o.tschema)}
+                      THEN DgOf(o.tschema, LAMBDA x : x.svc, a.name) ELSE "ERR")
+         [] OTHER -> FALSE
+
+\* queries that list bindings (C15's listing clause)
+IsListing(q) == q.q = "bindings"
+
+QueriesOK(only(_)) ==
+    (ev'.name = "Obs") =>
+        LET o == ev'.obs IN
+        /\ TruthBound(o)
+        /\ \A i \in DOMAIN o.queries :
+              only(o.queries[i]) => (WantOK(o, o.queries[i]) /\ o.queries[i].leg = o.queries[i].grpc)
+
+-----------------------------------------------------------------------------
+(* C19: the exported genesis validates, survives the JSON round trip, and a fresh      *)
+(* application that imports it holds the same definitions, bindings (with their price   *)
+(* terms rebuilt), ownership indexes, withdrawal addresses, contexts and parameters     *)
+
+GenesisOK ==
+    (ev'.name = "Genesis") =>
+        LET g == ev'.gen
+            i == g.imp
+        IN /\ g.valid /\ g.jsonok /\ g.jsonsame /\ g.moduleok /\ g.importok /\ g.reexportok
+           /\ g.ndefs = Cardinality(DOMAIN defs) /\ g.nbind = Cardinality(DOMAIN bind)
+           /\ g.nwaddr = Cardinality(DOMAIN waddr) /\ g.nctx = Cardinality(DOMAIN ctx)
+           /\ S_defs(i) = defs
+           /\ S_bind(i) = bind                      \* including the rebuilt stored price terms
+           /\ S_powner(i) = powner /\ S_oprov(i) = oprov /\ S_obind(i) = obind
+           /\ S_waddr(i) = waddr
+           /\ S_ctx(i) = ctx
+           /\ S_params(i) = params
+           /\ i.anom = <<>>
+           \* nothing else is imported
+           /\ i.req = <<>> /\ i.actId = <<>> /\ i.newQ = <<>> /\ i.expQ = <<>> /\ i.earned = <<>>
+
+-----------------------------------------------------------------------------
 (* verdicts: the property formulas, evaluated on the implementation's step *)
 
 \* nothing the projection could not represent (ambiguous or malformed keys, invalid records)
 NoAnomaly(id) == \A i \in DOMAIN Trace[l + 1].st.anom :
                     ~(\E k \in 1..3 : SubSeq(Trace[l + 1].st.anom[i], 1, 3) = id)
 
+\* zero-height preparation stops the chain: the states after it are not states of a running
+\* chain, and only C19 and C20 speak about them
+AfterStop == stopped'
+
 Holds(p) ==
+    IF AfterStop /\ p \notin {"C19", "C20"} THEN TRUE ELSE
     CASE p = "C01" -> Inv_C01' /\ Step_C01
       [] p = "C02" -> Step_C02
       [] p = "C03" -> Inv_C03' /\ Step_C03
@@ -156,9 +254,11 @@ Holds(p) ==
       [] p = "C12" -> Inv_C12' /\ Step_C12
       [] p = "C13" -> Inv_C13' /\ Step_C13
       [] p = "C14" -> Inv_C14'
-      [] p = "C15" -> Inv_C15' /\ Step_C15 /\ NoAnomaly("C15")
+      [] p = "C15" -> Inv_C15' /\ Step_C15 /\ NoAnomaly("C15") /\ QueriesOK(IsListing)
       [] p = "C16" -> Inv_C16' /\ Step_C16
-      [] p = "C18" -> NoAnomaly("C18")
+      [] p = "C17" -> QueriesOK(LAMBDA q : TRUE)
+      [] p = "C18" -> NoAnomaly("C18") /\ Step_C18
+      [] p = "C19" -> Step_C19 /\ GenesisOK
       [] p = "C20" -> Step_C20
       [] OTHER -> TRUE
 
@@ -176,7 +276,7 @@ TraceInit ==
     /\ cb = <<>>
     /\ ev = Trace[1].ev
     /\ hist = HistInit
-    /\ bad = {} /\ conf = TRUE
+    /\ bad = {} /\ conf = TRUE /\ stopped = FALSE
 
 TraceNext ==
     /\ l < Len(Trace)
@@ -193,6 +293,7 @@ TraceNext ==
     /\ cb' = [i \in DOMAIN Trace[l + 1].cb |-> CbOf(Trace[l + 1].cb[i])]
     /\ ev' = Trace[l + 1].ev
     /\ hist' = IF ev'.name = "reset" THEN HistInit ELSE HistNext
+    /\ stopped' = IF ev'.name = "reset" THEN FALSE ELSE (stopped \/ ev'.name = "PrepZeroHeight")
     /\ bad' = {p \in Check : ~Holds(p)}
     /\ conf' = Conf
     /\ (bad' # {} => PrintT(<<"VIOL", l + 1, bad'>>))
